@@ -139,9 +139,18 @@ def rule_fill(prog):
                 locs |= _slice_locals(f, f.term(x)["d"])
             uses_opt = ("kanata_parser::cfg::ParserState", "block_unmapped_keys") in flds
             uses_layer = bool(locs & lvl)
+            uses_defsrc = ("kanata_parser::cfg::ParserState", "mapping_order") in flds
             decided += 1
-            res.inst("decision@%d" % b, line=t.get("ln"), reads_block_unmapped_keys=uses_opt, depends_on_layer_index=uses_layer)
+            res.inst("decision@%d" % b, line=t.get("ln"), reads_block_unmapped_keys=uses_opt, depends_on_layer_index=uses_layer,
+                     spares_defsrc_keys=uses_defsrc)
             res.oblige(not uses_layer)
+            if uses_opt:
+                res.oblige(uses_defsrc)
+                if not uses_defsrc:
+                    res.viol("decision/blocks-defsrc-keys", "%s:%s" % (f.file, t.get("ln")),
+                             "the block-unmapped-keys fill does not look at the defsrc keys (ParserState.mapping_order): a defsrc key "
+                             "that a deflayermap layer does not list is turned into a no-op instead of staying transparent, although "
+                             "block-unmapped-keys only concerns keys that are not in defsrc")
             if uses_layer:
                 res.viol("decision/layer-dependent", "%s:%s" % (f.file, t.get("ln")),
                          "the choice between NoOp and Trans for unassigned keys depends on the layer index: with block-unmapped-keys "
